@@ -18,8 +18,10 @@ RULE = ("one evaluation = one queue call made by a real StdScheduler (execution 
         "fire time handed out by a trigger is taken for execution twice and no job runs more often than fire times were taken, at most 200 loop-side queue "
         "calls per burst window (expected about 2 per RetryInterval; the unrepaired loop made > 100 000), and after the faults stop every job still stored in the "
         "inner queue and not paused runs again within 1 s although unrelated far-future jobs keep being scheduled every 15 ms (interrupt tokens must not postpone "
-        "the retry); slower than 1 s but within 3 s = the plan is re-run alone and is a violation only if slow again. Call by call (faults5.go), in every plan: after a loop-side Pop() or Push() has failed with the injected error the loop's next Pop()/Push()/Head() comes no "
-        "sooner than RetryInterval - 1 ms (the Size() at the top of the loop is not a retry); plus (qh faults5) 3 / 4 jobs due at the same moment, every Push() failing from before they are due while "
+        "the retry); slower than 1 s but within 3 s = the plan is re-run alone and is a violation only if slow again. Under API traffic (an unrelated far-future job scheduled every 10 ms during a 400 ms burst, every one an interrupt token) the failing loop-side call - "
+        "Pop, Push, and since the repair of finding F4 also Size and Head - is made at most 11 times (once per RetryInterval + 3). "
+        "Call by call (faults5.go), in every plan: after a loop-side Pop(), Push(), Size() or Head() has failed with the injected error the loop's next queue call of ANY kind comes no "
+        "sooner than RetryInterval - 1 ms (the Size() at the top of an iteration included: the back-off deadline is tested before the queue is asked); plus (qh faults5) 3 / 4 jobs due at the same moment, every Push() failing from before they are due while "
         "Pop()/Size()/Head() answer truthfully, RetryInterval 400 ms, three dispatch modes, no API call: every failed push-back of a due job is followed by >= 399 ms without Pop/Push/Head. "
         "A plan is non-trivial when a fault was "
         "really injected (plans whose call was never reached are counted separately); distinct by (plan kind, side/operation/fault kind hit). "
@@ -50,11 +52,14 @@ def run(ctx):
     ctx.coverage["traces_validated_against_impl"] = 0
     ctx.coverage["note"] = "fault-injection property: stats.json only, no ops.txt/impl.txt; the harness's own oracle judges the real code"
     ctx.coverage["observations"] = [
-        "retries separated by an interrupt token are allowed by the formalisation and are not counted against the burst limit: the harness makes no API call "
-        "during a burst window, so the only tokens inside it are the loop's own Reset() after a successful push-back (a failing Head() with working Pop()/Push() "
-        "therefore shows 6 loop-side calls per RetryInterval, 48 per 400 ms, the observed maximum). On the real scheduler a failing Size()/Head() IS retried on every "
-        "interrupt, i.e. at the rate of mutating API calls (bounded by the callers, not by RetryInterval); only the Pop()/Push() back-off (retryAt) is immune to "
-        "interrupts (C15_backoff, C15_deadline_not_postponed)",
+        "since the repair of finding F4 the back-off deadline retryAt is set by EVERY failing loop-side call (Size, Head, Pop, Push) and tested before Size() is asked: "
+        "until the deadline the loop asks the queue nothing, whatever interrupt tokens arrive - mutating API calls, Reset(), the loop's own Reset() after a push-back - "
+        "(C15_backoff, C15_size_retry_kept, C15_deadline_not_postponed; judged on the real scheduler by the traffic plans and call by call). A Head() that answers "
+        "ErrQueueEmpty although Size() was non-zero sets no deadline (on a healthy queue that is the race 'last job deleted between Size() and Head()'; a back-off "
+        "there would hold back the next ScheduleJob, cf. d8c40f6): such a queue is looked at again on every interrupt, at most once per RetryInterval otherwise "
+        "(C15_no_spin_on_spurious_empty)",
+        "a back-off, once started by a queue failure, also holds back jobs scheduled meanwhile (by at most RetryInterval) - after Size()/Head() failures now as "
+        "after Pop()/Push() failures before; C05 is about queues that do not fail",
         "an empty Pop() counts as a queue failure only if Size(), asked again under the queue lock, does not answer 0 (C15_honest_empty_pop); a queue whose Size() "
         "alternates between non-zero at the top of the loop and zero inside fetchAndReschedule while its due head cannot be popped would still spin: excluded by "
         "the hypothesis size2 != 0 of C15_no_spin_on_empty_pop, not exercised by the harness",
